@@ -16,11 +16,11 @@ WORLDS = {
 PROPS = {
     "C04": {
         "world": "C", "level": "exploration",
-        "rule": "One case = knobs + a sequential prologue that builds a file layout (writes incl. late data, flushes, merge, compaction, optional clean "
+        "rule": "One case = knobs + operation list in rounds (T=0 operations run alone and ungated: prologue, clean restarts between concurrent segments) = a sequential prologue that builds a file layout (writes incl. late data, flushes, merge, compaction, optional clean "
                 "reopen so that the first concurrent write starts the asynchronous sequencer reload) + operation lists of 2-3 writers (disjoint series, monotone "
                 "with own overwrites), 2 readers, a flusher, a compactor/merger, optionally a dropper and a closer + a schedule seed. Every mutation (and per case "
                 "every read of chosen classes: sequencer reload, query, compaction, merge) of data/ and wal/ files parks at a gate; one scheduler step = start one "
-                "operation or release one parked FS operation (uniform or PCT priorities), then wait for process-wide quiescence (runtime.Stack). Oracle per query: "
+                "operation or release one parked FS operation (descriptor-keyed uniform choice, PCT priorities over task classes in half of the runs, or a recorded schedule used as priority order in replays/minimisation), then wait for process-wide quiescence (runtime.Stack). Oracle per query: "
                 "acknowledged-before-start points present, no duplicate/out-of-order timestamps, every value written to that cell by a write issued before the query "
                 "ended, nothing a reader saw disappears; no deadlock/panic; settled full reads and a reopen equal the model. evaluations = runs + queries judged. "
                 "Non-trivial = at least one scheduler step with a query in flight together with a flush/compaction/merge/sequencer reload/drop/close and at least one "
@@ -31,7 +31,7 @@ PROPS = {
         "assumptions": ["interleavings are explored at file-system-call granularity; races between two in-memory sections inside one scheduler step are left to the Go scheduler",
                         "series are created and made visible in the prologue; writers own disjoint series",
                         "timer-driven flush/compaction are off (they are client operations)", "race-detector reports are leads, not violations"],
-        "quick": {"runs": 1400, "budget_s": 170, "workers": 14},
-        "thorough": {"runs": 20000, "budget_s": 2400, "workers": 16},
+        "quick": {"runs": 3500, "budget_s": 170, "workers": 14},
+        "thorough": {"runs": 45000, "budget_s": 2300, "workers": 16},
     },
 }
